@@ -363,7 +363,17 @@ impl<'a> Gen<'a> {
                     "<<" | ">>" => Expr::Int(*self.tape.pick(&[0i64, 1, 5, 63, 64, -1])),
                     "**" => Expr::Int(*self.tape.pick(&[0i64, 1, 2, 3, -1])),
                     _ => {
-                        if self.tape.bool() { Expr::Int(*self.tape.pick(&[0i64, 1, 2, -1, 3])) } else { self.expr(&Ty::Int, depth - 1) }
+                        // inside a function body the divisor is a literal: a divisor computed from a
+                        // captured name is the known finding "closure creation folds a failing
+                        // operation of the body" (excluded by construction, counted as a label)
+                        if self.fn_ret.is_some() {
+                            self.label("excluded: computed divisor inside a function body");
+                            Expr::Int(*self.tape.pick(&[0i64, 1, 2, -1, 3]))
+                        } else if self.tape.bool() {
+                            Expr::Int(*self.tape.pick(&[0i64, 1, 2, -1, 3]))
+                        } else {
+                            self.expr(&Ty::Int, depth - 1)
+                        }
                     }
                 };
                 Expr::Bin(op, Box::new(self.expr(&Ty::Int, depth - 1)), Box::new(rhs))
